@@ -246,6 +246,9 @@ def run(ctx):
     ctx.record_all(ctx.pmap("vp.props.c35:case_history", hist, nproc=12, timeout=900 if quick else 3000))
     if not quick:
         ctx.exhaustive = True
+        from vp import suite
+        ctx.record(suite.run_suite(ctx, ["pydra/engine/tests/test_job.py", "pydra/engine/tests/test_error_handling.py",
+                                         "pydra/compose/tests/test_python_run.py", "pydra/compose/tests/test_workflow_run.py"], "job"))
     ctx.rule = ("InjectedFault before every statement-with-a-call on the recorded Job.run path (python ok / failing task; thorough: "
                 "+ shell + unpicklable return) + raising hooks / unpicklable return / failing body + random histories of "
                 "run/rerun; non-trivial = the fault really fired (injection) / >=2 steps (history); distinct = distinct "
